@@ -292,7 +292,24 @@ void run_type(hx::Desc& d) {
             delete l;
         });
     }
+    // c08c, tbb::mutex: optionally a second ("decoy") mutex whose address falls into the same bucket of the library's
+    // address-waiter table; the main thread holds it for the whole run and a decoy thread is parked on it, so the wait
+    // set that the lock under test uses contains a waiter of another object
+    std::vector<tbb::mutex>* pool = nullptr; tbb::mutex* decoy = nullptr; int decoy_fiber = -1;
+    if (g_sleep_focus && std::is_same<M, tbb::mutex>::value && sim::draw(3, "decoy") == 0) {
+        pool = new std::vector<tbb::mutex>(1u << 16);
+        auto bucket = [](const void* a) { std::uintptr_t t = (std::uintptr_t)a; return ((t >> 5) ^ t) % 2048; };
+        for (auto& x : *pool) if (bucket(&x) == bucket(m)) { decoy = &x; break; }
+        if (decoy) {
+            decoy->lock();
+            decoy_fiber = sim::spawn([decoy] { decoy->lock(); decoy->unlock(); }, "decoy");
+            for (int i = 0; i < 400 && sim::blocked_scenario_fibers() == 0; ++i) sim::point(sim::K_YIELD, nullptr);   // let it park
+            sim::probe("mutex:decoy-waiter-in-same-bucket");
+        }
+    }
     hx::run_fibers(fns);
+    if (decoy) { decoy->unlock(); sim::join(decoy_fiber); }
+    delete pool;
     SIM_CHECK(book.writers == 0 && book.readers == 0, "tool:harness", "bookkeeping imbalance");
     sim::set_watch(nullptr, nullptr, nullptr);
     sim::tso_unregister(payload, sizeof(*payload));
